@@ -169,7 +169,7 @@ theorem mem_lockedPaths_iff_aux {s : St} (x : Option Nat) (hx : x ∈ lockedPath
   · exact absurd h1 (by simp)
 
 /-- the path of an idle slot is not a locked path -/
-theorem idle_not_lockedPath {s : St} {H : List (Nat × Nat)} {tn : Nat} (hc : Core s H tn) (t : Nat)
+theorem idle_not_lockedPath {s : St} {H : List (Nat × Nat)} {tn : Nat} (hc : CoreR s H tn) (t : Nat)
     (ht : s.locks[t]? = some false) : s.trajs.getD t none ∉ lockedPaths s := by
   intro hm
   obtain ⟨j, hj, hjt, hjl⟩ := mem_lockedPaths_iff_aux _ hm
@@ -187,7 +187,7 @@ theorem idle_not_lockedPath {s : St} {H : List (Nat × Nat)} {tn : Nat} (hc : Co
 
 /-- shape of a successful iteration: two idle slots are swapped (C03's argument, with the slots
     made explicit) -/
-theorem sortStep_some_spec {s s' : St} {H : List (Nat × Nat)} {tn : Nat} (h : Core s H tn)
+theorem sortStep_some_spec {s s' : St} {H : List (Nat × Nat)} {tn : Nat} (h : CoreR s H tn)
     (hs : sortStep s = .ok (some s')) :
     ∃ e t, s' = swap s e t ∧ s.locks[e]? = some false ∧ s.locks[t]? = some false := by
   unfold sortStep at hs
@@ -230,16 +230,16 @@ theorem sortStep_some_spec {s s' : St} {H : List (Nat × Nat)} {tn : Nat} (h : C
     exact hne hz
   · apply unlocked_of_not_locked _ _ (by rw [h.lenL]; omega)
     intro hl
-    have hm := mem_lockedPaths h _ htjlt hl
+    have hm := mem_lockedPathsR h _ htjlt hl
     rw [← List.contains_iff_mem] at hm
     rw [hm] at hav
     exact absurd hav.2 (by simp)
 
 /-- **One iteration never fails, keeps the invariants and decreases the measure.** -/
-theorem sortStep_progress {s : St} {H : List (Nat × Nat)} {tn tn' : Nat} (hc : Core s H tn')
+theorem sortStep_progress {s : St} {H : List (Nat × Nat)} {tn tn' : Nat} (hc : CoreR s H tn')
     (hf : Fam s tn) :
     sortStep s = .ok none ∨
-      ∃ s', sortStep s = .ok (some s') ∧ Core s' H tn' ∧ AuxEq s s' ∧ Fam s' tn ∧ mu s' < mu s := by
+      ∃ s', sortStep s = .ok (some s') ∧ CoreR s' H tn' ∧ AuxEq s s' ∧ Fam s' tn ∧ mu s' < mu s := by
   by_cases hcond : (needsToMove s).contains true ∧ s.toinitiate = -1
   swap
   · left
@@ -340,7 +340,7 @@ theorem sortStep_progress {s : St} {H : List (Nat × Nat)} {tn tn' : Nat} (hc : 
   have htjIdle : s.locks[tj]? = some false := by
     apply unlocked_of_not_locked _ _ (by rw [hc.lenL]; omega)
     intro hl
-    have hm := mem_lockedPaths hc _ htj' hl
+    have hm := mem_lockedPathsR hc _ htj' hl
     rw [← List.contains_iff_mem] at hm
     rw [hm] at htjw
     exact absurd htjw.2 (by simp)
@@ -362,7 +362,7 @@ theorem sortStep_progress {s : St} {H : List (Nat × Nat)} {tn tn' : Nat} (hc : 
     rw [if_neg (not_not.mpr hcond), he, hzi]
     rw [if_neg (by omega)]
     rw [hav, htjdef, if_neg (by omega)]
-  refine ⟨swap s e tj, hstep, swap_core hc e tj heIdle htjIdle, AuxEq.swap s e tj, ?_, ?_⟩
+  refine ⟨swap s e tj, hstep, swap_coreR hc e tj heIdle htjIdle (Or.inl (by rw [hcond.2]; decide)), (AuxEqR.swap s e tj).toAux, ?_, ?_⟩
   · obtain ⟨hr, hwt⟩ := swap_rows_wts hf hc.lenW hc.lenT e tj he' htj' (by omega)
     refine ⟨hr, ?_, hwt, hf.wkeys, hf.fkeys, hf.rkeys⟩
     show 0 < permC (idle (swapList s.W e tj) s.locks)
@@ -387,8 +387,8 @@ theorem sortStep_progress {s : St} {H : List (Nat × Nat)} {tn tn' : Nat} (hc : 
 /-- **`sort_trajstate` terminates**: with more fuel than the measure the loop ends, without an
     error, in a state where the loop condition is false. -/
 theorem sortTrajstate_terminates : ∀ (fuel : Nat) {s : St} {H : List (Nat × Nat)} {tn tn' : Nat},
-    Core s H tn' → Fam s tn → mu s < fuel →
-    ∃ s' k, sortTrajstate fuel s = .ok (s', k) ∧ Core s' H tn' ∧ AuxEq s s' ∧ Fam s' tn ∧
+    CoreR s H tn' → Fam s tn → mu s < fuel →
+    ∃ s' k, sortTrajstate fuel s = .ok (s', k) ∧ CoreR s' H tn' ∧ AuxEq s s' ∧ Fam s' tn ∧
       sortStep s' = .ok none := by
   intro fuel
   induction fuel with
@@ -450,7 +450,7 @@ theorem diag_of_sortStep_none {s : St} (h : sortStep s = .ok none) (hto : s.toin
 /-- the loop only permutes idle rows: locks unchanged, locked slots keep row and path, the rows
     and the live paths are permuted -/
 theorem sortTrajstate_frame : ∀ (fuel : Nat) {s s' : St} {H : List (Nat × Nat)} {tn k : Nat},
-    Core s H tn → sortTrajstate fuel s = .ok (s', k) →
+    CoreR s H tn → sortTrajstate fuel s = .ok (s', k) →
     s'.locks = s.locks ∧ s'.W.Perm s.W ∧ s'.trajs.Perm s.trajs ∧
     (∀ i : Nat, s.locks[i]? = some true → s'.W[i]? = s.W[i]? ∧ s'.trajs[i]? = s.trajs[i]?) ∧
     s'.wts = s.wts ∧ s'.frac = s.frac ∧ s'.rows = s.rows := by
@@ -472,7 +472,7 @@ theorem sortTrajstate_frame : ∀ (fuel : Nat) {s s' : St} {H : List (Nat × Nat
         simp only [Except.ok.injEq, Prod.mk.injEq] at h
         obtain ⟨rfl, _⟩ := h
         obtain ⟨e, t, hs1, heI, htI⟩ := sortStep_some_spec hc hstep
-        obtain ⟨hc1, _⟩ := sortStep_core hc hstep
+        obtain ⟨hc1, _⟩ := sortStep_coreR hc hstep
         obtain ⟨h1, h2, h3, h4, h5, h6, h7⟩ := ih hc1 hrec
         subst hs1
         have he' := hc.unlocked_lt e heI
